@@ -196,3 +196,48 @@ pub fn bytes_json(b: &[u8]) -> Value {
 pub fn repo_root() -> String {
     std::env::var("PV_REPO").unwrap_or_else(|_| "/repo".to_string())
 }
+
+/// BigNat.tla JSON form of a decimal integer string ("-123", "0", ...):
+/// {"neg": bool, "mag": [base-10^4 limbs, little endian]} (normalised).
+pub fn big_json(dec: &str) -> Value {
+    let (neg, digits) = match dec.strip_prefix('-') {
+        Some(d) => (true, d),
+        None => (false, dec),
+    };
+    let digits = digits.trim_start_matches('0');
+    let bytes = digits.as_bytes();
+    let mut mag = Vec::new();
+    let mut end = bytes.len();
+    while end > 0 {
+        let start = end.saturating_sub(4);
+        let limb: u32 = std::str::from_utf8(&bytes[start..end]).unwrap().parse().unwrap_or_else(|_| die("bad decimal"));
+        mag.push(json!(limb));
+        end = start;
+    }
+    json!({"neg": neg && !mag.is_empty(), "mag": mag})
+}
+pub fn big_json_i128(v: i128) -> Value {
+    big_json(&v.to_string())
+}
+pub fn big_json_u64(v: u64) -> Value {
+    big_json(&v.to_string())
+}
+/// Inverse of `big_json` (to a decimal string).
+pub fn big_from_json(v: &Value) -> String {
+    let mag = jarr(&v["mag"]);
+    if mag.is_empty() {
+        return "0".into();
+    }
+    let mut s = String::new();
+    if v["neg"].as_bool().unwrap_or(false) {
+        s.push('-');
+    }
+    for (i, l) in mag.iter().rev().enumerate() {
+        if i == 0 {
+            s.push_str(&format!("{}", jint(l)));
+        } else {
+            s.push_str(&format!("{:04}", jint(l)));
+        }
+    }
+    s
+}
